@@ -6,7 +6,8 @@ from core import rng, run_cases
 MODULES = ["Props.C14", "Props.C14Tie"]
 THEOREMS = ["Props.C14.c14_table", "Props.C14.c14_latch_never_negative", "Props.C14.c14_nocontrib_neutral",
             "Props.C14.c14_onmatch_gate", "Props.C14.c14_history", "Props.C14.c14_outside_quantifier",
-            "Props.C14Tie.qualifier_words"]
+            "Props.C14Tie.qualifier_words",
+            "Props.C14Tie.assignment_source_is_model", "Props.C14Tie.c14_table_source"]
 
 
 def run(check, tier):
